@@ -67,19 +67,25 @@ def table_problems(f, reg, update=True):
             if cap > 0 and bi not in _candidates(fp, cap, reg["hf"]):
                 problems.append(f"fingerprint {fp} sits in bucket {bi}, its candidate buckets for capacity {cap} are {_candidates(fp, cap, reg['hf'])}")
     last = reg["last_capacity"]
+    rates = {reg["rate"], getattr(f, "expansion_rate", reg["rate"])}
     if cap != last:
-        c, ok = last, False
-        for _ in range(40):
-            c *= reg["rate"]
-            if c == cap:
-                ok = True
-                break
-            if c > cap:
-                break
+        ok = False
+        for rate in rates:
+            c = last
+            for _ in range(40):
+                if not isinstance(rate, int) or rate < 2:
+                    break
+                c *= rate
+                if c == cap:
+                    ok = True
+                    break
+                if c > cap:
+                    break
         if not ok:
             problems.append(f"capacity changed from {last} to {cap}, not by multiplication with the expansion rate {reg['rate']}")
         if update:
             reg["last_capacity"] = cap
+    reg["rate"] = getattr(f, "expansion_rate", reg["rate"])
     return problems
 
 
